@@ -782,7 +782,18 @@ class TaskGroup(abc.TaskGroup):
                 if not self._tasks:
                     # If there are no child tasks to wait on, run at least one checkpoint
                     # anyway
-                    await AsyncIOBackend.cancel_shielded_checkpoint()
+                    try:
+                        await AsyncIOBackend.cancel_shielded_checkpoint()
+                    except CancelledError as exc:
+                        # A native cancellation of the host task gets through the
+                        # shield; treat it like one received while waiting for the child
+                        # tasks below, so the errors collected so far aren't lost
+                        self.cancel_scope.cancel()
+                        if exc_val is None or (
+                            isinstance(exc_val, CancelledError)
+                            and not is_anyio_cancellation(exc)
+                        ):
+                            exc_val = exc
 
                 # Check again, as a task holding a reference to this task group may have
                 # started a new child task during the checkpoint above
